@@ -164,7 +164,12 @@ def _prefilter(XI, VI, RI, X, V, R, SH, VS, line, dtl):
 
 
 def has_tie(cfg, t):
-    """True if the normalisation of a shear image offset is itself within 1e-9 of its branch point."""
+    """True if the azimuthal offset of a shear image is not pinned down by the documentation: within 1e-9 of the
+    branch point of its normalisation, or t < 0 (the library's formula brings the offset into (-Ly/2, Ly/2] only for
+    t >= 0; for negative times it picks the representative one box length further out, which matters when there
+    is no ghost ring in y)."""
+    if cfg["boundary"] == "shear" and t < 0 and max(cfg["nghost"]) > 0:
+        return True
     return any(amb for _, _, amb in images(cfg, t))
 
 
